@@ -26,11 +26,7 @@ theorem syncIPs_spec (pod : Pod) : ∀ (ips : List IP) (s : State), Inv s → Ne
         apply c.evolves
         · intro o ho r hr; rw [ho] at hr; cases hr
         · intro n hn r hr
-          obtain ⟨r', e1, e2, e3⟩ := hn
-          rw [e1] at hr; cases hr
-          intro q hq hkq
-          have := hk q hq (by rw [hkq, e2])
-          rw [e3]; exact this
+          trivial
       have pl : (allocateSpecific s (keyOf pod) ip { policy := policyOf pod, node := pod.node, uid := pod.uid }).1.plog = s.plog := by
         unfold allocateSpecific
         dsimp only
@@ -60,16 +56,7 @@ theorem syncPods_spec : ∀ (l : List Pod) (s : State), Inv s →
 /-- every pod the lister shows may own records under its key with its uid -/
 theorem Inv.newOK_of_lister {s : State} (h : Inv s) (p : Pod) (hp : p ∈ Tbl.vals s.vPods) :
     NewOKKey s.pods (keyOf p) p.uid := by
-  simp only [Tbl.vals, List.mem_map] at hp
-  obtain ⟨⟨id, p'⟩, hm, he⟩ := hp
-  simp at he; subst he
-  have hg := Tbl.get_of_mem_nodup h.vPodsNodup hm
-  obtain ⟨pid, _, _, wf, _⟩ := h.lister id p' hg
-  intro q hq hk
-  have wq := (h.podsWF _ q hq.1).2.2.2
-  have := keyOf_inj q p' wq wf hk
-  have hl : Tbl.get s.vPods q.id = some p' := by rw [this, pid]; exact hg
-  exact Or.inr (h.listerLive q hq p' hl)
+  trivial
 
 theorem syncPodIPs_spec (s : State) (h : Inv s) :
     Inv (syncPodIPs s).1 ∧ (syncPodIPs s).1.pods = s.pods ∧ (syncPodIPs s).1.plog = s.plog := by
@@ -86,13 +73,11 @@ theorem inv_of_reconfigured {s s' : State} {ps : List Pool} (h : Inv s) (rc : Re
     (hkeep : ∀ q, LiveBound s.pods q → ∀ hd, hd ∈ q.handed → configured ps hd.ip = true) : Inv s' := by
   refine ⟨rc.coherent, ?_, ?_, ?_, ?_, ?_, ?_, ?_, by rw [rc.pods]; exact h.podsNodup, by rw [rc.vPods]; exact h.vPodsNodup⟩
   · rw [rc.pods]
-    refine ⟨fun q hq hd hm => ?_, fun q hq ip r hg hk => ?_⟩
-    · obtain ⟨r, h1, h2, h3⟩ := h.safe.own q hq hd hm
-      exact ⟨r, by rw [rc.alloc, hkeep q hq hd hm]; simpa using h1, h2, h3⟩
-    · rw [rc.alloc] at hg
-      by_cases hc : configured ps ip = true
-      · simp [hc] at hg; exact h.safe.keyUids q hq ip r hg hk
-      · simp [hc] at hg
+    refine ⟨fun q hq hd hm => ?_⟩
+    obtain ⟨r, h1, h2, h3⟩ := h.safe.own q hq hd hm
+    refine ⟨r, ?_, h2, h3⟩
+    rw [rc.alloc, hkeep q hq hd hm]
+    simp only [if_true, listed, Tbl.get_append, h.coh.agree, h1, Option.orElse]
   · rw [rc.pods, rc.nextUid]; exact h.podsWF
   · rw [rc.pods]; exact h.uidUniq
   · rw [rc.pods, rc.vPods, rc.nextUid]; exact h.lister
@@ -100,7 +85,7 @@ theorem inv_of_reconfigured {s s' : State} {ps : List Pool} (h : Inv s) (rc : Re
   · rw [rc.pods, rc.vPods]; exact h.listerLive
   · rw [rc.nextUid]; exact h.uidPos
 
-theorem reload_spec (s : State) (pools : List Pool) (h : Inv s) (hcalls : s.calls = 0) (hf : s.fault ≤ 2)
+theorem reload_spec (s : State) (pools : List Pool) (h : Inv s)
     (hkeep : ∀ q, LiveBound s.pods q → ∀ hd, hd ∈ q.handed → configured pools hd.ip = true) :
     Inv (reload s pools).1 ∧ (reload s pools).1.pods = s.pods ∧ (reload s pools).1.plog = s.plog := by
   unfold reload
@@ -118,7 +103,7 @@ theorem reload_spec (s : State) (pools : List Pool) (h : Inv s) (hcalls : s.call
         exact ⟨h1.quiet (api_quiet _), rfl, rfl⟩
       · rename_i hc
         have hc' : (configurePool s.api.1 pools).2 = true := by simpa using hc
-        have rc := configurePool_ok s.api.1 pools h1.coh (by simp [State.api, hcalls]; omega) hc'
+        have rc := configurePool_ok' s.api.1 pools hc'
         have hi := inv_of_reconfigured h1 rc hkeep
         refine ⟨hi.of_fields rfl rfl rfl rfl rfl rfl rfl rfl, rc.pods, ?_⟩
         show (configurePool s.api.1 pools).1.plog = s.plog
@@ -126,27 +111,21 @@ theorem reload_spec (s : State) (pools : List Pool) (h : Inv s) (hcalls : s.call
         dsimp only
         split
         · rfl
-        · show (deleteAll _ _).plog = s.plog
-          have : ∀ (l : List IP) (t : State), (deleteAll t l).plog = t.plog := by
-            intro l
-            induction l with
-            | nil => intro t; rfl
-            | cons ip tl ih => intro t; unfold deleteAll; rw [ih, stDelete_plog]
-          rw [this]; rfl
+        · show (dropAll _ _).plog = s.plog
+          rw [(dropAll_fields _ _).2.2.2.2.2.2.2]; rfl
 
 theorem assumed_reload {s : State} {pools : List Pool} {fault : Nat} (ha : assumed s (.reload pools fault) = true) :
-    fault ≤ 2 ∧ ∀ q, LiveBound s.pods q → ∀ hd, hd ∈ q.handed → configured pools hd.ip = true := by
-  simp only [assumed, Bool.and_eq_true, decide_eq_true_eq, List.all_eq_true, Bool.or_eq_true] at ha
-  refine ⟨ha.1, fun q hq hd hm => ?_⟩
-  have := ha.2 (q.id, q) (Tbl.get_mem hq.1)
+    ∀ q, LiveBound s.pods q → ∀ hd, hd ∈ q.handed → configured pools hd.ip = true := by
+  simp only [assumed, List.all_eq_true, Bool.or_eq_true] at ha
+  intro q hq hd hm
+  have := ha (q.id, q) (Tbl.get_mem hq.1)
   rcases this with hfin | hall
   · have h2 := hq.2.1; simp at hfin; rw [hfin] at h2; cases h2
   · exact hall hd hm
 
 theorem inv_reload (s : State) (pools : List Pool) (fault : Nat) (h : Inv s)
     (ha : assumed s (.reload pools fault) = true) : Inv (step Facts.good s (.reload pools fault)).1 := by
-  obtain ⟨hf, hk⟩ := assumed_reload ha
-  exact (reload_spec (withFaults s fault 0) pools (inv_withFaults s fault 0 h) rfl hf hk).1
+  exact (reload_spec (withFaults s fault 0) pools (inv_withFaults s fault 0 h) (assumed_reload (s := s) ha)).1
 
 theorem inv_restart (s : State) (h : Inv s) : Inv (step Facts.good s .restart).1 := by
   simp only [step]
@@ -175,7 +154,7 @@ theorem inv_restart (s : State) (h : Inv s) : Inv (step Facts.good s .restart).1
     rw [configurePool_fail _ _ hc]
     exact h1.quiet (api_quiet _)
   | true =>
-    have rc := configurePool_ok _ _ h1.coh (Or.inl rfl) hc
+    have rc := configurePool_ok' _ _ hc
     apply inv_of_reconfigured h1 rc
     intro q hq hd hm
     obtain ⟨r, hr, _, _⟩ := h1.safe.own q hq hd hm
